@@ -3,7 +3,7 @@
 L1: theorems of NfcVerif.Props.C05 about the executable two-endpoint model
     NfcVerif.Model.Dlc (every finite sequence of the atomic steps send / recv /
     setBusy / poll / dequeue / sendack / deliver / close / closeFin on both
-    sides, any RW in 1..15 on both sides, any MIU): delivered is a prefix of
+    sides, any RW in 0..15 on both sides, any MIU): delivered is a prefix of
     accepted, nothing is lost while both ends are established, window,
     sequence consistency through the modulo-16 wrap (no FRMR, no discarded I
     PDU, no recv_confs overrun), EMSGSIZE, progress; collect() is a composition
@@ -21,11 +21,12 @@ L3: oracle on the real objects only: prefix / conservation / window / wire
 import itertools
 import logging
 
-from common import Model, hx
+from common import Model, hx, exc_name, Infra
+from props.c05_net import run_net, KNOWN_CLOSE
 
 logging.disable(logging.CRITICAL)
 
-LEAN_TARGETS = ["NfcVerif.Props.C05", "drv_c05", "NfcVerif.Props.TablesPdu"]
+LEAN_TARGETS = ["NfcVerif.Props.C05", "NfcVerif.Props.C05Sap", "drv_c05", "NfcVerif.Props.TablesPdu"]
 
 THEOREMS = [
     "NfcVerif.C05.dlc_prefix",
@@ -36,6 +37,14 @@ THEOREMS = [
     "NfcVerif.C05.dlc_collect_covered",
     "NfcVerif.C05.dlc_no_stuck",
     "NfcVerif.C05.dlc_wakeup_rechecks",
+]
+THEOREMS_SAP = [
+    "NfcVerif.C05.sap_route_first_match",
+    "NfcVerif.C05.sap_route_reaches_connection",
+    "NfcVerif.C05.client_stream_disciplined",
+    "NfcVerif.C05.net_route_reaches_connection",
+    "NfcVerif.C05.net_early_data_counterexample",
+    "NfcVerif.C05.net_half_open_counterexample",
 ]
 
 OTHER = {"A": "B", "B": "A"}
@@ -50,10 +59,21 @@ class Walk:
         from sims.dlc_pair import Pair
         self.ck, self.cfg, self.label = ck, cfg, label
         rwA, rwB, miuA, miuB, link, agf = cfg
-        self.pair = Pair(rwA, rwB, miuA, miuB, link, agf)
         self.rw = {"A": rwA, "B": rwB}
-        self.lines = [self.pair.init_line()]
         self.real = [None]
+        self.failed = set()
+        try:
+            self.pair = Pair(rwA, rwB, miuA, miuB, link, agf)
+            self.lines = [self.pair.init_line()]
+        except Infra:
+            raise
+        except Exception as e:  # noqa  - the connection cannot even be set up: a failing input, not a crash
+            self.pair, self.dead = None, True
+            self.lines = ["init 128 128 1 1 128 128 1 1 128 0"]
+            self.acc, self.got, self.stats, self.cnt = {"A": [], "B": []}, {"A": [], "B": []}, {}, 0
+            self.fail("dlc-handshake-failed", "CONNECT / CC between two controllers does not establish a connection: %s %r"
+                      % (exc_name(e), e))
+            return
         self.acc = {"A": [], "B": []}
         self.got = {"A": [], "B": []}
         self.seen = {"A": 0, "B": 0}       # PDUs of wirelog already judged
@@ -63,7 +83,6 @@ class Walk:
         self.cnt = 0
         self.dead = False
         self.stats = {}
-        self.failed = set()
         p = self.pair
         for x in "AB":
             s, o = p.s[x], p.s[OTHER[x]]
@@ -93,7 +112,21 @@ class Walk:
             return None
         p = self.pair
         before = p.digest() if line.startswith("send") else None
-        res = p.op(line)
+        pre = (str(p.s[line.split(" ")[1]].state), len(p.s[line.split(" ")[1]].recv_queue)) if line.startswith("close ") else None
+        try:
+            res = p.op(line)
+        except Infra:
+            raise
+        except Exception as e:  # noqa  - whatever nfcpy throws through the simulator glue is a failing input, not a crash
+            res = "exc " + exc_name(e)
+            self.lines.append(line)
+            self.real.append(res + " | ?")
+            self.fail("dlc-unexpected-exception", "%s raised %r outside a socket call" % (line, e))
+            self.dead = True
+            return res
+        if pre is not None and res == "done" and pre[0] == "ESTABLISHED" and pre[1] > 0:
+            self.fail(KNOWN_CLOSE, "close() of an established socket with %d unread PDUs in its receive queue took one of them "
+                      "for the DM: it returned at once, DISC was never sent and the peer stays ESTABLISHED" % pre[1])
         self.lines.append(line)
         self.real.append(res + " | " + p.digest())
         self.judge(line, res, before)
@@ -182,7 +215,7 @@ class Walk:
     def drain(self):
         """quiescence: move everything, read everything; then nothing may be missing"""
         p = self.pair
-        if p.closed["A"] or p.closed["B"] or self.dead:
+        if self.dead or p.closed["A"] or p.closed["B"]:
             return
         for _ in range(200):
             moved = False
@@ -218,7 +251,8 @@ class Walk:
                 self.do("send %s %s" % (x, hx(self.msg(2))))
 
     def finish(self):
-        self.pair.cleanup()
+        if self.pair is not None:
+            self.pair.cleanup()
         return self
 
 
@@ -226,7 +260,8 @@ def random_cfg(rng, rwA=None, rwB=None):
     link = rng.choice([128, 128, 131, 140, 200, 248, 1000, 2175])
     miuA = rng.choice([128, 128, link, rng.randrange(128, link + 1)])
     miuB = rng.choice([128, 128, link, rng.randrange(128, link + 1)])
-    return (rwA or rng.randrange(1, 16), rwB or rng.randrange(1, 16), miuA, miuB, link, rng.random() < 0.5)
+    return (rng.choice([0] + list(range(1, 16)) * 2) if rwA is None else rwA,
+            rng.choice([0] + list(range(1, 16)) * 2) if rwB is None else rwB, miuA, miuB, link, rng.random() < 0.5)
 
 
 def random_walk(ck, cfg, steps, label, micro=False, close_at=None):
@@ -587,15 +622,16 @@ def run(ck):
     ck.rule = ("(schedules of blocked threads count as histories too: scenario + decision list) a case is one history: (RW_A, RW_B, MIU_A, MIU_B, link MIU, aggregation, sequence of steps on two real "
                "controllers); bounded-exhaustive: every sequence of length d over a 10-letter step alphabet from the "
                "fresh connection and from a state one message before the modulo-16 wrap; random: walks with changing "
-               "step weights over the RW grid 1..15 x 1..15; non-trivial = at least one message was delivered or "
+               "step weights over the RW grid 0..15 x 0..15; non-trivial = at least one message was delivered or "
                "refused; distinct by hash of configuration + step list")
     ck.assumptions += [
         "each modelled step is atomic in Python: it is one `with self.lock` region of tco.py (send, recv, dequeue, "
         "sendack, the acknowledgement part of enqueue) executed by one thread; preemption inside such a region, "
         "spurious wake-ups other than the modelled closeFin, and CPython's Condition semantics are assumed, not proved",
         "both endpoints run this implementation (behaviour against a peer that sends wrong N(S)/N(R) is C07)",
-        "the connection parameters are those of a CONNECT/CC handshake with RW in 1..15 and MIU in 128..2175 "
-        "(RW=0 is not encoded by CONNECT/CC, finding F4 of C11; SO_RCVMIU below 128 cannot be announced)",
+        "the connection parameters are those of a CONNECT/CC handshake with RW in 0..15 and MIU in 128..2175 "
+        "(SO_RCVBUF above 15 is clamped to 15 by setsockopt; SO_RCVMIU below 128 cannot be announced: CONNECT/CC carry "
+        "MIUX = MIU - 128, the peer assumes 128 and its 128-octet I PDU is answered with FRMR)",
         "the wires are reliable FIFO (NFC-DEP, property C04) and each controller has no other active socket",
         "the model equals the Python code outside the compared histories (the D-tie is exhaustive only for the "
         "stated short histories)",
@@ -604,17 +640,21 @@ def run(ck):
                    "harness/props/c05.py, harness/sims/dlc_pair.py (deterministic single-threaded driver of two real "
                    "controllers; close() in a helper thread with strict rendezvous)"]
     ck.lean("NfcVerif.Props.C05", THEOREMS)
+    ck.lean("NfcVerif.Props.C05Sap", THEOREMS_SAP)
     if ck.thorough:
-        ck.leanchecker(["NfcVerif.Props.C05"])
+        ck.leanchecker(["NfcVerif.Props.C05", "NfcVerif.Props.C05Sap"])
     model = Model("drv_c05")
     lock_regions(ck)
     from sims.dlc_pair import Pair, HandshakeFailed
     try:
         Pair(1, 1, 128, 128, 128, True).cleanup()
-    except HandshakeFailed as e:
+    except Infra:
+        raise
+    except Exception as e:  # noqa  (HandshakeFailed or whatever the tree under test throws)
         ck.fail("dlc-handshake-failed", "CONNECT / CC between two controllers does not establish a connection: %s" % e,
                 {"cfg": [1, 1, 128, 128, 128, True], "ops": []})
         ck.tie("two-endpoint DLC model vs two real controllers (histories)", cases=0, disagreements=0)
+        ck.tie("controller model with several sockets per access point vs two real controllers (histories)", cases=0, disagreements=0)
         return
 
     walks = []
@@ -636,8 +676,8 @@ def run(ck):
     nexh = len(walks)
     # ---- RW grid
     steps = 400 if ck.thorough else 120
-    for rwA in range(1, 16):
-        for rwB in range(1, 16):
+    for rwA in range(0, 16):
+        for rwB in range(0, 16):
             cfg = random_cfg(rng, rwA, rwB)
             walks.append(random_walk(ck, cfg, steps, "grid", micro=(rwA + rwB) % 3 == 0))
     # ---- long walks, walks with close
@@ -654,7 +694,14 @@ def run(ck):
         scens += [("recv", 3, 3, 3, 0), ("send", 3, 2, 2, 1), ("send", 3, 1, 2, 0), ("recv", 3, 2, 2, 1), ("send", 3, 2, 1, 1)]
     nsched, allc = 0, True
     for scen in scens:
-        out, complete = schedules(ck, scen, 3000 if ck.thorough else 1200)
+        try:
+            out, complete = schedules(ck, scen, 3000 if ck.thorough else 1200)
+        except Infra:
+            raise
+        except Exception as e:  # noqa
+            ck.fail("dlc-blocking-call-raised", "schedule exploration %s stopped by %s %r" % (list(scen), exc_name(e), e),
+                    {"scenario": list(scen)})
+            continue
         walks += out
         nsched += len(out)
         allc = allc and complete
@@ -663,6 +710,16 @@ def run(ck):
                     "(condition-variable double, strict baton, one decision per wake-up / thread start / link round; %s); "
                     "oracle: window, prefix, nothing lost, nobody left waiting; every schedule is also replayed on the model"
                     % (nsched, "every scenario enumerated completely" if allc else "largest scenarios sampled beyond the budget"))
+
+    # ---- the routing layer: several sockets per access point, re-connects (props/c05_net.py)
+    try:
+        run_net(ck, model)
+    except Infra:
+        raise
+    except Exception as e:  # noqa
+        import traceback
+        ck.fail("dlc-unexpected-exception", "histories with several sockets stopped by %s %r\n%s"
+                % (exc_name(e), e, traceback.format_exc()[-1500:]), {})
 
     # ---- compare with the model
     lines = [l for w in walks for l in w.lines]
